@@ -1028,4 +1028,19 @@ theorem encodeOpsS_spec (sink : Sink) (ops : List EncOp) (hempty : sink.arrived 
     | ioerr s => exact ⟨fun hn => hfin.1 (hroom hn), hfin.2⟩
     | ok s => exact ⟨hfin.1, fun hn => hfin.2 (hroom hn)⟩
 
+/-! ## 10. the client: reading to the end -/
+
+theorem rfcEncode_len_ge : ∀ d : List UInt8, d.length ≤ (rfcEncode d).length
+  | [] => by simp [rfcEncode]
+  | [_] => by simp [rfcEncode]
+  | [_, _] => by simp [rfcEncode]
+  | _ :: _ :: _ :: rest => by
+    have := rfcEncode_len_ge rest
+    simp only [rfcEncode, List.length_cons]; omega
+
+theorem sum_replicate_nat (n k : Nat) : (List.replicate n k).sum = n * k := by
+  induction n with
+  | zero => simp
+  | succ n ih => rw [List.replicate_succ, List.sum_cons, ih, Nat.succ_mul]; omega
+
 end SurfProofs.Lemmas.Base64
